@@ -314,7 +314,12 @@ class PythonTemplater(RawTemplater):
                         )
                     )
 
-                return raw_str_with_dot_notation_hack.format_map(fallback_context)
+                try:
+                    return raw_str_with_dot_notation_hack.format_map(fallback_context)
+                except (ValueError, IndexError, AttributeError, TypeError) as err:
+                    raise SQLTemplaterError(
+                        f"Failure in Python templating: {err}."
+                    )
 
             try:
                 rendered_str = raw_str_with_dot_notation_hack.format(**live_context)
@@ -346,6 +351,11 @@ class PythonTemplater(RawTemplater):
                         "variables? https://docs.sqlfluff.com/en/stable/"
                         "perma/variables.html".format(err)
                     )
+            except (ValueError, IndexError, AttributeError, TypeError) as err:
+                # e.g. an invalid format string (a single "{"), a positional
+                # field ("{}") or a lookup/format spec the value doesn't
+                # support. That's a problem with the template, not a crash.
+                raise SQLTemplaterError(f"Failure in Python templating: {err}.")
             return rendered_str
 
         raw_sliced, sliced_file, new_str = self.slice_file(
